@@ -147,7 +147,7 @@ def write_mc(scn, fixes, outdir, name='MC'):
 EXTENDS DesyncImpl, TLCExt
 %s
 SilentLabels == {%s}
-IsSilent(p) == pc[p] \\in SilentLabels \\/ (atomic[p] /\\ pc[p] # "Done" /\\ ~(pc[p] = "st_dormant" /\\ thrHeld = p))
+IsSilent(p) == pc[p] \\in SilentLabels \\/ (atomic[p] /\\ pc[p] # "Done" /\\ ~(pc[p] = "st_dormant" /\\ thrHeld = p) /\\ ~(pc[p] \\in {"st_reap", "st_dormant", "st_spawn"} /\\ thrHeld # "" /\\ thrHeld # p))
 SilentPriority == (\\E p \\in Procs : IsSilent(p)) => (\\E p \\in Procs : IsSilent(p) /\\ (pc'[p] # pc[p] \\/ stack'[p] # stack[p]))
 QS == [o \\in Objs |-> <<qstate[o], Len(jobs[o])>>]
 NoViol == h.viol = {}
